@@ -31,6 +31,8 @@ class Rec:
         self.calls = []
         self.native = True
         self.getdev = True
+        self.intflags = False          # device flags reported as 1/0 (as mido's portmidi and pygame backends do)
+        self.ioport_raises = None      # exception class the native IOPort constructor raises
 
 
 REC = Rec()
@@ -61,12 +63,19 @@ def _make_module(fullname):
     class IOPort(_Port):
         CLS = 'IOPort'
 
+        def __init__(self, name=None, **kwargs):
+            _Port.__init__(self, name, **kwargs)
+            if REC.ioport_raises is not None:
+                raise REC.ioport_raises("the device's own failure")
+
     m.Input, m.Output = Input, Output
     if REC.native:
         m.IOPort = IOPort
     if REC.getdev:
         def get_devices(**kwargs):
             REC.calls.append((short, 'get_devices', None, dict(kwargs)))
+            if REC.intflags:
+                return [{'name': n, 'is_input': int(i), 'is_output': int(o)} for n, i, o in DEVICES]
             return [{'name': n, 'is_input': i, 'is_output': o} for n, i, o in DEVICES]
         m.get_devices = get_devices
     return m
@@ -95,6 +104,8 @@ def run_cell(row):
      module, open_, import_at, constructed, listing, qapi) = row
     REC.imports, REC.calls = [], []
     REC.native, REC.getdev = bool(native), bool(getdev)
+    REC.intflags = bool(envin) != bool(load)
+    REC.ioport_raises = None
     for v in MODNAMES.values():
         sys.modules.pop(v, None)
     saved_env = dict(os.environ)
@@ -301,6 +312,37 @@ def check_env_read_each_call():
             sys.modules.pop(v, None)
 
 
+def check_native_ioport_failure_propagates():
+    """A module with a native IOPort: whatever its constructor raises reaches the
+    caller, and no Input/Output pair is opened instead."""
+    import mido.backends.backend as bb
+    if _FINDER not in sys.meta_path:
+        sys.meta_path.insert(0, _FINDER)
+    try:
+        for exc in (AttributeError, OSError, TypeError, KeyError):
+            for v in MODNAMES.values():
+                sys.modules.pop(v, None)
+            REC.imports, REC.calls = [], []
+            REC.native, REC.getdev, REC.ioport_raises = True, True, exc
+            be = bb.Backend(MODNAMES['mod'], use_environ=False)
+            try:
+                be.open_ioport('p')
+            except exc:
+                pass
+            except Exception as e:
+                return 'native IOPort raised %s, open_ioport raised %r instead' % (exc.__name__, e)
+            else:
+                return 'native IOPort raised %s, open_ioport returned normally (constructed %r)' % (
+                    exc.__name__, [c[1] for c in REC.calls])
+            if [c[1] for c in REC.calls] != ['IOPort']:
+                return 'native IOPort raised %s: constructors called %r' % (exc.__name__, [c[1] for c in REC.calls])
+        return None
+    finally:
+        REC.ioport_raises = None
+        for v in MODNAMES.values():
+            sys.modules.pop(v, None)
+
+
 def check_call_kwargs_do_not_persist():
     """Keyword arguments of one open_*() call reach that call's constructors only."""
     import mido.backends.backend as bb
@@ -339,6 +381,8 @@ def check_call_kwargs_do_not_persist():
 
 
 def replay(case):
+    if case.get('kind') == 'native_ioport':
+        return check_native_ioport_failure_propagates()
     if case.get('kind') == 'call_kwargs':
         return check_call_kwargs_do_not_persist()
     if case.get('kind') == 'env_each_call':
@@ -367,6 +411,10 @@ CHECK_DEADLOCK FALSE
     ctx.add_tlc(res, 'BackendSel full grid')
     if n != res.distinct:
         raise core.Machinery('replayed %d rows, TLC found %d states' % (n, res.distinct))
+    r = check_native_ioport_failure_propagates()
+    ctx.replayed += 1
+    if r:
+        ctx.violation('backend/native-ioport-failure', {'kind': 'native_ioport'}, r)
     r = check_call_kwargs_do_not_persist()
     ctx.replayed += 1
     if r:
